@@ -42,7 +42,7 @@ func TestProp(t *testing.T) {
 		"the end of shutdownResolver (run by context.AfterFunc) is observed through its SubscriptionCountDec report",
 	)
 	r.RequireLabel("trigger-removed-while-starting", "shutdown-with-2+-live-triggers", "split-reached:"+subrig.PtStart, "split-reached:"+subrig.PtInit,
-		"start-failure", "start-blocked", "trigger-key-recreated", "joiner-hook-fails", "start-called-for-dead-trigger", "done-on-dead-trigger", "enum-cases",
+		"start-failure", "start-blocked", "trigger-key-recreated", "joiner-hook-fails", "start-called-for-dead-trigger", "done-on-dead-trigger", "enum-cases", "start-failure-broadcast-parked", "joined-during-start-failure-broadcast",
 		"real:pair-must-not-share", "real:pair-must-share", "real:diff:extensions", "real:diff:extensions.nested", "real:diff:variables.nested", "real:diff:header",
 		"real:mutation:body.extensions.token", "real:mutation:body.variables.in.a.b", "real:mutation:url", "real:mutation:initial_payload.authorization")
 	r.Regress(dispatch())
